@@ -160,6 +160,19 @@ CLAIMED.update({
     ),
 })
 
+CLAIMED.update({
+    "C11": dict(
+        category="other", design_ref="DESIGN.md §5 C11",
+        text="Rely/guarantee proof for the thread runner: the loop thread is verified function by function (_kill_and_reroute, ThreadRunner._on_stop, "
+             "_reclaim_available_slots, runner_loop_iteration, BaseRunner.on_stop/stop_runner_loop/run) while task threads are an environment relation "
+             "written from the lifecycle spec and proved closed under every accepted request of a task thread. Proved: after run() returns, every "
+             "invocation of the runner's table is final or available-and-queued and nothing is PENDING/RUNNING under the runner; a stop request always "
+             "takes the flag down. Two genuine defects are known findings with replays on the real runner (join of a waiter blocks the stop forever; "
+             "slot reclaiming forgets invocations left RUNNING by a dead thread). Process runners: only C14's pool contracts.",
+        technique="contract-based deductive verification with a rely relation for the task threads (AST->z3 VCs) + bounded stop-in-every-phase runs of the real ThreadRunner",
+    ),
+})
+
 NOT_YET = {}
 
 
